@@ -39,6 +39,7 @@ import Apko.Proofs.Lemmas.SbomGen
 import Apko.Proofs.Lemmas.SbomFuel
 import Apko.Proofs.Lemmas.SbomImage
 import Apko.Proofs.Lemmas.SbomVerdict
+import Apko.Proofs.Lemmas.SbomDriver
 
 namespace Apko.C11
 open Apko Apko.Sbom
@@ -786,5 +787,103 @@ theorem apk_elements_match_embedded {o : Opts} {fs : SbomDir} {ord : List Id →
 /-- the weaker hypothesis is satisfied where the old one is not: `foo` ships an SBOM (about `libz`) -/
 example : NoTarget benignFS benignOpts ∧ DistinctIds benignOpts ∧ noEmbeddedB benignFS benignOpts = false := by
   refine ⟨noTarget_iff.mpr (by decide), by unfold DistinctIds; decide, by decide⟩
+
+/-! ## the orders the driver tries -/
+
+/-- every iteration order the `s.gen` handler tries (`ordOf c` for `c ∈ choices (multiLists o fs)`) is a
+rearrangement of the key set it is applied to -/
+theorem driver_orders_perm (o : Opts) (fs : SbomDir) :
+    ∀ c ∈ Driver.Sbom.choices (Driver.Sbom.multiLists o fs), OrdPerm (Driver.Sbom.ordOf c) :=
+  Sbom.driver_orders_perm o fs
+
+/-- so every candidate document the handler computes gets a listed class (or none) -/
+theorem driver_candidates_listed {o : Opts} {fs : SbomDir} (hh : headerOk o = true) (hu : unclaimed o fs = true) :
+    ∀ c ∈ Driver.Sbom.choices (Driver.Sbom.multiLists o fs), ∀ d,
+      generate o fs (Driver.Sbom.ordOf c) = .ok d → Driver.Sbom.classOf o fs (oracle o fs d) ≠ "unlisted" :=
+  fun c hc _ h => driver_invalid_listed (Sbom.driver_orders_perm o fs c hc).ordOk hh hu h
+
+/-- without an embedded SBOM with two target elements (¬F11d) the handler has exactly one candidate, computed
+with the identity order — by `order_independent_partial` it is the model's answer for every Go map order, so
+in this case the correspondence is an equality, not a membership -/
+theorem driver_single_candidate {o : Opts} {fs : SbomDir} (h : multiTarget o fs = false) :
+    (Driver.Sbom.choices (Driver.Sbom.multiLists o fs)).map (fun c => generate o fs (Driver.Sbom.ordOf c)) =
+      [generate o fs id] :=
+  Sbom.driver_single_candidate h
+
+/-! ## the index oracle on the model's index document -/
+
+/-- the identifiers of the index document, in order: index, one per image, source -/
+def indexIds (o : IndexOpts) : List Id :=
+  indexId o :: o.images.map (fun h => (archImagePackage h).id) ++
+    (if o.vcsUrl.isEmpty then [] else [sourceId o.vcsUrl])
+
+theorem index_ids {o : IndexOpts} {d : Doc} (h : generateIndex o = .ok d) : d.ids = indexIds o := by
+  unfold generateIndex at h
+  split at h
+  · cases h
+  · cases h
+    unfold indexIds
+    cases o.vcsUrl.isEmpty <;> simp [Doc.ids, addSourcePackage, indexPackage, sourcePackage, Function.comp_def]
+
+theorem index_length {o : IndexOpts} {d : Doc} (h : generateIndex o = .ok d) :
+    d.packages.length = 1 + o.images.length + (if o.vcsUrl.isEmpty then 0 else 1) := by
+  unfold generateIndex at h
+  split at h
+  · cases h
+  · cases h
+    cases o.vcsUrl.isEmpty <;> simp [addSourcePackage] <;> omega
+
+/-- on the model's index document every clause of `indexOracle` holds for all inputs except identifier
+uniqueness (GenerateIndex has no de-dup pass) -/
+theorem index_oracle_cases {o : IndexOpts} {d : Doc} (h : generateIndex o = .ok d) :
+    indexOracle o d = if idsUnique d = true then none else some "id-duplicate" := by
+  have h1 : (d.packages.all fun p => validSpdxId p.id) = true := List.all_eq_true.mpr (index_ids_valid h)
+  have h3 := index_refs_resolve h
+  obtain ⟨hd, hp, him⟩ := index_describes_index h
+  have h6 := index_length h
+  unfold indexOracle
+  rw [h1, h3, hd]
+  cases hu : idsUnique d
+  · simp
+  · simp only [Bool.not_true, Bool.false_eq_true, if_false, if_true]
+    rw [if_neg, if_neg, if_neg]
+    · simp [h6]
+    · simp only [Bool.not_eq_true', Bool.not_eq_false, List.all_eq_true, List.any_eq_true, Bool.and_eq_true,
+        decide_eq_true_eq, List.contains_eq_mem]
+      intro im hi
+      obtain ⟨a1, a2⟩ := him im hi
+      exact ⟨_, a1, ⟨by simp [archImagePackage], rfl⟩, _, a2, ⟨rfl, rfl⟩, by simp⟩
+    · simp only [Bool.not_eq_true', Bool.not_eq_false, List.any_eq_true, Bool.and_eq_true,
+        decide_eq_true_eq, List.contains_eq_mem]
+      exact ⟨_, hp, ⟨rfl, rfl⟩, by simp⟩
+
+/-- **index_oracle_passes_partial** — when index, images and source sanitise to pairwise distinct identifiers
+the driver's verdict on the model's index document is `pass` -/
+theorem index_oracle_passes_partial {o : IndexOpts} {d : Doc} (hn : (indexIds o).Nodup)
+    (h : generateIndex o = .ok d) : Driver.Sbom.verdict (indexOracle o d) = "pass" := by
+  rw [index_oracle_cases h, if_pos ((idsUnique_iff d).mpr (index_ids h ▸ hn))]
+  rfl
+
+/-- … and that is the only way it can fail -/
+theorem index_invalid_only_duplicate {o : IndexOpts} {d : Doc} (h : generateIndex o = .ok d)
+    (hfail : indexOracle o d ≠ none) : indexOracle o d = some "id-duplicate" ∧ ¬ (indexIds o).Nodup := by
+  rw [index_oracle_cases h] at hfail ⊢
+  split at hfail
+  · exact absurd rfl hfail
+  · next hu =>
+    rw [if_neg hu]
+    exact ⟨rfl, fun hn => hu ((idsUnique_iff d).mpr (index_ids h ▸ hn))⟩
+
+def exIndex : IndexOpts := ⟨⟨"sha256".toList, "aa".toList⟩, [⟨"sha256".toList, "bb".toList⟩, ⟨"sha256".toList, "cc".toList⟩],
+  "https://x/y@12".toList⟩
+
+example : (indexIds exIndex).Nodup := by unfold indexIds; decide
+
+/-- the hypothesis is needed: the same image digest twice gives two elements with one identifier -/
+theorem index_duplicate_witness :
+    (match generateIndex ⟨⟨"sha256".toList, "aa".toList⟩, [⟨"sha256".toList, "bb".toList⟩, ⟨"sha256".toList, "bb".toList⟩], []⟩ with
+     | .ok d => indexOracle ⟨⟨"sha256".toList, "aa".toList⟩, [⟨"sha256".toList, "bb".toList⟩, ⟨"sha256".toList, "bb".toList⟩], []⟩ d
+     | .error _ => none) = some "id-duplicate" := by
+  decide
 
 end Apko.C11
